@@ -2,6 +2,7 @@ package main
 
 import (
 	"go/types"
+	"strings"
 
 	"golang.org/x/tools/go/ssa"
 )
@@ -118,6 +119,18 @@ func (x *Explorer) call(st *State, site ssa.CallInstruction, cc *ssa.CallCommon,
 			if len(cc.Args) > 0 {
 				f0 := st.factOf(cc.Args[0])
 				f.Tags = f0.Tags
+				// append(nil, empty...) is nil: the result is only known non-nil when the first operand is
+				if f0.Nil != triNo {
+					f.Nil = triUnk
+					// appending explicit elements (not a spread slice) always yields a non-nil slice
+					if len(cc.Args) == 2 {
+						if sl, ok := cc.Args[1].(*ssa.Slice); ok {
+							if _, isAlloc := sl.X.(*ssa.Alloc); isAlloc {
+								f.Nil = triNo
+							}
+						}
+					}
+				}
 				if f0.Nil == triYes {
 					f.Tags |= TFresh
 				}
@@ -176,6 +189,9 @@ func (x *Explorer) call(st *State, site ssa.CallInstruction, cc *ssa.CallCommon,
 			}
 			x.emit(st, &Event{Kind: EvEffect, Eff: e, Instr: site, Tags: x.tagsOf(st, cc.Value)})
 			x.defineResult(st, site, deferred, res)
+		case cc.Method.Name() == "Close" && (isNamedFrom(cc.Value.Type(), "io", "WriteCloser") || isNamedFrom(cc.Value.Type(), "io", "Closer") || isNamedFrom(cc.Value.Type(), "io", "ReadCloser")):
+			x.emit(st, &Event{Kind: EvEffect, Eff: ECloseIface, Instr: site})
+			x.defineResult(st, site, deferred, x.genericResults(st, cc)...)
 		case isNamedFrom(cc.Value.Type(), "context", "Context") && cc.Method.Name() == "Err":
 			x.emit(st, &Event{Kind: EvEffect, Eff: ECtxErr, Instr: site})
 			x.defineResult(st, site, deferred, Fact{})
@@ -489,6 +505,12 @@ func (x *Explorer) external(st *State, site ssa.CallInstruction, cc *ssa.CallCom
 		ev(EFsReadDir, argTags(0))
 	case xFsSync:
 		ev(EFsSync, 0)
+	case xFileClose:
+		ev(ECloseFile, 0)
+	case xGzip:
+		if strings.HasPrefix(callee.Name(), "NewWriter") {
+			ev(EGzipWriter, 0)
+		}
 	case xJsonMarshal:
 		k := jsonEncKind(x.P, cc)
 		if k == EJsonEncOther && argTags(0)&TParamObj != 0 {
@@ -541,7 +563,17 @@ func (x *Explorer) external(st *State, site ssa.CallInstruction, cc *ssa.CallCom
 		if len(cc.Args) > 0 {
 			class = x.lockClass(cc.Args[0])
 		}
-		x.L.Event(x, st, &Event{Kind: EvLock, Instr: site, LockClass: class, LockOp: kind, Callee: callee})
+		inst := 2
+		if len(cc.Args) > 0 {
+			t := x.tagsOf(st, cc.Args[0])
+			switch {
+			case t&TCache != 0 && t&TPend == 0:
+				inst = 0
+			case t&TPend != 0 && t&TCache == 0:
+				inst = 1
+			}
+		}
+		x.L.Event(x, st, &Event{Kind: EvLock, Instr: site, LockClass: class, LockInst: inst, LockOp: kind, Callee: callee})
 		lk := &st.lk
 		switch class {
 		case "H":
@@ -565,12 +597,17 @@ func (x *Explorer) external(st *State, site ssa.CallInstruction, cc *ssa.CallCom
 			switch kind {
 			case xLock:
 				lk.S++
+				lk.Si[inst]++
 				lk.SW = true
 			case xRLock:
 				lk.S++
+				lk.Si[inst]++
 			default:
 				if lk.S > 0 {
 					lk.S--
+				}
+				if lk.Si[inst] > 0 {
+					lk.Si[inst]--
 				}
 				if lk.S == 0 {
 					lk.SW = false
@@ -580,12 +617,17 @@ func (x *Explorer) external(st *State, site ssa.CallInstruction, cc *ssa.CallCom
 			switch kind {
 			case xLock:
 				lk.M++
+				lk.Mi[inst]++
 				lk.MW = true
 			case xRLock:
 				lk.M++
+				lk.Mi[inst]++
 			default:
 				if lk.M > 0 {
 					lk.M--
+				}
+				if lk.Mi[inst] > 0 {
+					lk.Mi[inst]--
 				}
 				if lk.M == 0 {
 					lk.MW = false
